@@ -86,7 +86,29 @@ func genPit(g *common.Gen, r *common.Rand) {
 			} else {
 				maxLife = max(maxLife, 4000)
 			}
-			g.Op("I %d %s %d %d %d %s", r.Range(1, 4), common.NameText(n), fl[0], fl[1], r.Range(1, 5), ls)
+			// features that reach the early-return branches of processIncomingInterest
+			face, nonce, hl, nhf := r.Range(1, 4), strconv.Itoa(r.Range(1, 5)), "-", "-"
+			if r.Chance(1, 40) {
+				face = 9 // no such face
+			}
+			if r.Chance(1, 30) {
+				nonce = "-"
+			}
+			switch r.Intn(20) {
+			case 0:
+				hl = "0"
+			case 1:
+				hl = "1"
+			case 2:
+				hl = strconv.Itoa(r.Range(2, 5))
+			}
+			if r.Chance(1, 5) {
+				nhf = strconv.Itoa(common.Pick(r, []int{1, 2, 3, 4, 9, 9}))
+			}
+			if r.Chance(1, 30) {
+				n = append(enc.Name{enc.NewStringComponent(enc.TypeGenericNameComponent, "localhost")}, n...)
+			}
+			g.Op("I %d %s %d %d %s %s %s %s", face, common.NameText(n), fl[0], fl[1], nonce, ls, hl, nhf)
 			nInterest++
 			g.Stat("I")
 		case x < 70:
@@ -107,7 +129,17 @@ func genPit(g *common.Gen, r *common.Rand) {
 				tok = "X"
 			}
 			seq++
-			g.Op("D %d %s %s %s %s", r.Range(1, 4), common.NameText(n), fs, tok, common.Hex(c07.DataWire(n, fresh, []byte{byte(seq >> 8), byte(seq)})))
+			dface := r.Range(1, 4)
+			if r.Chance(1, 40) {
+				dface = 9
+			}
+			if r.Chance(1, 20) {
+				tok = "S" // a PIT token that is not 6 bytes long is ignored
+			}
+			if r.Chance(1, 40) {
+				n = append(enc.Name{enc.NewStringComponent(enc.TypeGenericNameComponent, "localhost")}, n...)
+			}
+			g.Op("D %d %s %s %s %s", dface, common.NameText(n), fs, tok, common.Hex(c07.DataWire(n, fresh, []byte{byte(seq >> 8), byte(seq)})))
 			g.Stat("D-tok" + tok[:1])
 		case x < 95:
 			g.Op("adv %d", common.Pick(r, []int{1, 10, 50, 99, 100, 101, 300, 600, 2000}))
@@ -200,6 +232,9 @@ func genRib(g *common.Gen, r *common.Rand) {
 			return common.Pick(r, used)
 		}
 		n := u.Draw(r)
+		if r.Chance(1, 8) {
+			n = enc.Name{} // the zero-component prefix "/" (default route)
+		}
 		used = append(used, n)
 		return n
 	}
@@ -474,7 +509,33 @@ func dumpRib() string {
 		l = append(l, common.NameText(n.Path)+"|"+strconv.Itoa(n.NumRoutes))
 	}
 	sort.Strings(l)
-	return "rib=" + joinOr(",", l) + " ;; " + dumpFib()
+	// routes and FIB next hops through the exported listings (faces sorted)
+	faces := func(ids []uint64) string {
+		sort.Slice(ids, func(i, j int) bool { return ids[i] < ids[j] })
+		out := make([]string, len(ids))
+		for i, id := range ids {
+			out[i] = strconv.FormatUint(id, 10)
+		}
+		return strings.Join(out, "+")
+	}
+	var routes, fibnh []string
+	for _, e := range table.Rib.GetAllEntries() {
+		var ids []uint64
+		for _, rt := range e.GetRoutes() {
+			ids = append(ids, rt.FaceID)
+		}
+		routes = append(routes, common.NameText(e.Name)+"|"+faces(ids))
+	}
+	for _, e := range table.FibStrategyTable.GetAllFIBEntries() {
+		var ids []uint64
+		for _, nh := range e.GetNextHops() {
+			ids = append(ids, nh.Nexthop)
+		}
+		fibnh = append(fibnh, common.NameText(e.Name())+"|"+faces(ids))
+	}
+	sort.Strings(routes)
+	sort.Strings(fibnh)
+	return "rib=" + joinOr(",", l) + " routes=" + joinOr(",", routes) + " ;; " + dumpFib() + " fibnh=" + joinOr(",", fibnh)
 }
 
 func resetDicts() {
@@ -557,13 +618,23 @@ func exec(op string) string {
 	case "I":
 		n := common.ParseNameText(f[2])
 		noteName(n)
-		nonce := uint32(common.Atou(f[5]))
-		nonces[nonce] = true
-		it := &spec.Interest{NameV: n, CanBePrefixV: f[3] == "1", MustBeFreshV: f[4] == "1", NonceV: utils.IdPtr(nonce)}
+		it := &spec.Interest{NameV: n, CanBePrefixV: f[3] == "1", MustBeFreshV: f[4] == "1"}
+		if f[5] != "-" {
+			nonce := uint32(common.Atou(f[5]))
+			nonces[nonce] = true
+			it.NonceV = utils.IdPtr(nonce)
+		}
 		if f[6] != "-" {
 			it.InterestLifetimeV = utils.IdPtr(time.Duration(common.Atoi(f[6])) * time.Millisecond)
 		}
-		th.QueueInterest(&defn.Pkt{Name: n, L3: &spec.Packet{Interest: it}, IncomingFaceID: utils.IdPtr(common.Atou(f[1]))})
+		pkt := &defn.Pkt{Name: n, L3: &spec.Packet{Interest: it}, IncomingFaceID: utils.IdPtr(common.Atou(f[1]))}
+		if len(f) > 7 && f[7] != "-" {
+			it.HopLimitV = utils.IdPtr(byte(common.Atoi(f[7])))
+		}
+		if len(f) > 8 && f[8] != "-" {
+			pkt.NextHopFaceID = utils.IdPtr(common.Atou(f[8]))
+		}
+		th.QueueInterest(pkt)
 		synctest.Wait()
 		return dumpPit()
 	case "D":
@@ -583,6 +654,8 @@ func exec(op string) string {
 		p := &defn.Pkt{Name: pkt.Data.NameV, L3: pkt, Raw: wire, IncomingFaceID: utils.IdPtr(common.Atou(f[1]))}
 		switch {
 		case f[4] == "-":
+		case f[4] == "S":
+			p.PitToken = []byte{0, 0, 0, 1}
 		case f[4] == "X":
 			tok := uint32(0x7fffffff)
 			for _, ok := tokIdx[tok]; ok; _, ok = tokIdx[tok] {
